@@ -1208,13 +1208,184 @@ theorem loop_invD (E : List Stmt) (ps : List VName) (fn : Bool) (wf : WfD E ps) 
     · exact ih _ _ M₁ Done₁ g1 g2 g3
     · exact ⟨_, M₁, Done₁, g1, g2⟩
 
+-- ---------------------------------------------------------------------------- variables that are constant by construction
+
+theorem alg_zero (op : String) : alg op 0 0 = 0 := by
+  unfold alg; split <;> (try split) <;> (try split) <;> simp_all
+
+theorem algPrefix_zero (op : String) : algPrefix op 0 = 0 := by
+  unfold algPrefix; split <;> simp
+
+theorem maxList_zero : ∀ (l : List Nat), (∀ x ∈ l, x = 0) → maxList l = 0
+  | [], _ => rfl
+  | x :: r, h => by
+    have hx := h x List.mem_cons_self
+    have hr := maxList_zero r (fun y hy => h y (List.mem_cons_of_mem _ hy))
+    simp [maxList, hx, hr]
+
+/-- an expression built from numbers, parameters of degree 0 and variables of degree 0 has degree 0 -/
+theorem constExpr_deg (ps C : List VName) (δ : VName → Nat) (hps : ∀ p, p ∈ ps → δ p = 0)
+    (hC : ∀ w, C.contains w.base = true → δ w = 0) : ∀ e, constExpr ps C e = true → degE δ e = 0
+  | .num _ _, _ => by simp [degE]
+  | .var _ v, h => by
+    simp only [constExpr, Bool.or_eq_true] at h
+    simp only [degE]
+    rcases h with h | h
+    · exact hps v (by simpa using h)
+    · exact hC v h
+  | .infix _ op l r, h => by
+    simp only [constExpr, Bool.and_eq_true] at h
+    simp only [degE, constExpr_deg ps C δ hps hC l h.1, constExpr_deg ps C δ hps hC r h.2, alg_zero]
+  | .prefix _ op e, h => by
+    simp only [constExpr] at h
+    simp only [degE, constExpr_deg ps C δ hps hC e h, algPrefix_zero]
+  | .phi _ args, h => by
+    simp only [constExpr, List.all_eq_true] at h
+    simp only [degE]
+    apply maxList_zero
+    intro x hx
+    obtain ⟨a, ha, rfl⟩ := List.mem_map.mp hx
+    exact hC a (h a ha)
+  | .switch _ _ _ _, h => by simp [constExpr] at h
+  | .call _ _ _, h => by simp [constExpr] at h
+  | .arr _ _, h => by simp [constExpr] at h
+  | .acc _ _ _, h => by simp [constExpr] at h
+  | .upd _ _ _ _, h => by simp [constExpr] at h
+
+theorem mem_assignmentsOf (blocks : List Block) (b : Block) (hb : b ∈ blocks) (a : Ann) (v : VName) (ty : Option VType) (op : String)
+    (rhe : Expr) (hs : Stmt.sub a v ty op rhe ∈ b.stmts) : (v.base, b.conds, ty, rhe) ∈ assignmentsOf blocks := by
+  unfold assignmentsOf
+  exact List.mem_flatMap.mpr ⟨b, hb, List.mem_filterMap.mpr ⟨_, hs, rfl⟩⟩
+
+/-- in a template, every version of a variable of a closed set has degree 0 in every reachable degree state: its assignments are
+    built from numbers, parameters and such variables (the semantics of `ReachD` lets any assignment fire at any time, so no
+    statement about the order of execution is needed) -/
+theorem reachD_const (cfg : Cfg) (C : List VName) (hfn : cfg.isFunction = false)
+    (hparams : ∀ v, v ∈ cfg.params → ¬ HasSub ((stmtsOf cfg.blocks).map eraseS) v)
+    (hcl : constClosed cfg.params cfg.blocks C = true) :
+    ∀ δ, ReachD ((stmtsOf cfg.blocks).map eraseS) cfg.params cfg.isFunction δ →
+      (∀ w, C.contains w.base = true → δ w = 0) ∧ (∀ p, p ∈ cfg.params → δ p = 0) := by
+  unfold constClosed at hcl
+  simp only [Bool.and_eq_true, List.all_eq_true] at hcl
+  obtain ⟨hassign, hnl⟩ := hcl
+  intro δ hr
+  induction hr with
+  | init δ hi =>
+    have hp : ∀ p, p ∈ cfg.params → δ p = 0 := by
+      intro p hp; have := hi.param p hp; rw [hfn] at this; simpa using this
+    refine ⟨?_, hp⟩
+    intro w hw
+    by_cases hwp : w ∈ cfg.params
+    · exact hp w hwp
+    · by_cases hwn : NonLocal ((stmtsOf cfg.blocks).map eraseS) w
+      · exfalso
+        obtain ⟨s, hs, hd⟩ := hwn
+        obtain ⟨s', hs', rfl⟩ := List.mem_map.mp hs
+        cases s' with
+        | decl names ty dims =>
+          have hd' : ty ≠ VType.local_ ∧ w ∈ names := hd
+          have hmem : w ∈ nonLocalNames cfg.blocks := by
+            unfold stmtsOf at hs'
+            obtain ⟨b, hb, hsb⟩ := List.mem_flatMap.mp hs'
+            unfold nonLocalNames
+            refine List.mem_flatMap.mpr ⟨b, hb, List.mem_flatMap.mpr ⟨_, hsb, ?_⟩⟩
+            simp [hd'.1, hd'.2]
+          have := hnl w hmem
+          rw [hw] at this; simp at this
+        | ite c => exact hd.elim
+        | ret e => exact hd.elim
+        | sub a v ty op rhe => exact hd.elim
+        | ceq l r => exact hd.elim
+        | log args => exact hd.elim
+        | assert e => exact hd.elim
+      · exact hi.other w hwn hwp
+  | step δ δ' hr hst ih =>
+    obtain ⟨ihC, ihP⟩ := ih
+    cases hst with
+    | assign a v ty op rhe d hmem hnlv hd =>
+      have hvp : v ∉ cfg.params := fun hv => hparams v hv ⟨_, hmem, rfl⟩
+      constructor
+      · intro w hw
+        by_cases hwv : w = v
+        · subst hwv
+          rw [DState.set_same]
+          obtain ⟨s', hs', hes⟩ := List.mem_map.mp hmem
+          cases s' with
+          | sub a' v' ty' op' rhe' =>
+            simp only [eraseS, Stmt.sub.injEq] at hes
+            obtain ⟨_, hv', hty', _, hrhe⟩ := hes
+            subst hv'
+            unfold stmtsOf at hs'
+            obtain ⟨b, hb, hsb⟩ := List.mem_flatMap.mp hs'
+            have hin := mem_assignmentsOf cfg.blocks b hb a' _ ty' op' rhe' hsb
+            have hok := hassign _ hin
+            simp only [hw, Bool.not_true, Bool.false_or] at hok
+            unfold assignmentOk at hok
+            simp only [Bool.and_eq_true] at hok
+            have h0 := constExpr_deg cfg.params C δ ihP ihC rhe' hok.1
+            rw [← hrhe, degE_erase, h0] at hd
+            omega
+          | decl _ _ _ => simp [eraseS] at hes
+          | ite _ => simp [eraseS] at hes
+          | ret _ => simp [eraseS] at hes
+          | ceq _ _ => simp [eraseS] at hes
+          | log _ => simp [eraseS] at hes
+          | assert _ => simp [eraseS] at hes
+        · rw [DState.set_other _ _ _ _ hwv]; exact ihC w hw
+      · intro p hp
+        have hpv : p ≠ v := fun e => hvp (e ▸ hp)
+        rw [DState.set_other _ _ _ _ hpv]; exact ihP p hp
+
 -- ---------------------------------------------------------------------------- the start
 
 def paramStep (fn : Bool) (env : DegEnv) (p : VName) : DegEnv :=
   ((env.setType p .local_).setDegree p (if fn then (0, 1) else (0, 0))).1
 
+def seedStep (env : DegEnv) (v : VName) : DegEnv := (env.setDegree v (0, 0)).1
+
 theorem degInit_eq (cfg : Cfg) :
-    degInit cfg = cfg.params.foldl (paramStep cfg.isFunction) { ranges := [], types := [], assigned := [] } := rfl
+    degInit cfg = (constVars cfg).foldl seedStep
+      (cfg.params.foldl (paramStep cfg.isFunction) { ranges := [], types := [], assigned := [] }) := rfl
+
+theorem seedFold : ∀ (vs : List VName) (env : DegEnv),
+    let r := vs.foldl seedStep env
+    (∀ w rg, r.degree w = some rg → env.degree w = some rg ∨ (w ∈ vs ∧ rg = (0, 0))) ∧
+    (∀ w, env.degree w ≠ none → r.degree w ≠ none) ∧
+    (∀ w, r.isLocal w = env.isLocal w) := by
+  intro vs
+  induction vs with
+  | nil => intro env; exact ⟨fun _ _ h => Or.inl h, fun _ h => h, fun _ => rfl⟩
+  | cons v r ih =>
+    intro env
+    simp only [List.foldl_cons]
+    obtain ⟨i1, i2, i3⟩ := ih (seedStep env v)
+    have d1 : ∀ w, (seedStep env v).degree w = if w = v then some (0, 0) else env.degree w := by
+      intro w; unfold seedStep; rw [degree_setDegree]
+    refine ⟨?_, ?_, ?_⟩
+    · intro w rg h
+      rcases i1 w rg h with h1 | ⟨h1, h2⟩
+      · rw [d1] at h1
+        split at h1
+        · rename_i hw; cases h1; exact Or.inr ⟨by rw [hw]; exact List.mem_cons_self, rfl⟩
+        · exact Or.inl h1
+      · exact Or.inr ⟨List.mem_cons_of_mem _ h1, h2⟩
+    · intro w h; apply i2; rw [d1]; split
+      · simp
+      · exact h
+    · intro w; rw [i3]; unfold seedStep; exact isLocal_setDegree env v w (0, 0)
+
+theorem mem_constVars (cfg : Cfg) (v : VName) (h : v ∈ constVars cfg) :
+    cfg.isFunction = false ∧ ∃ C, constClosed cfg.params cfg.blocks C = true ∧ C.contains v.base = true := by
+  unfold constVars at h
+  split at h
+  · cases h
+  · rename_i hfn
+    simp only at h
+    split at h
+    · rename_i hcl
+      rw [List.mem_filter] at h
+      exact ⟨by simpa using hfn, _, hcl, h.2⟩
+    · cases h
 
 theorem initFold (fn : Bool) : ∀ (ps : List VName) (env : DegEnv),
     let r := ps.foldl (paramStep fn) env
@@ -1341,28 +1512,42 @@ theorem noDegS_sound (δ : DState) (s : Stmt) (h : NoDegS s) : SoundSD δ s := b
 /-- the program of a CFG: its statements without annotations, in block order -/
 def programOf (cfg : Cfg) : List Stmt := (stmtsOf cfg.blocks).map eraseS
 
-/-- **Path-level soundness of degree propagation, for every budget of passes.** -/
-theorem degree_path_sound (cfg : Cfg) (wf : WfD (programOf cfg) cfg.params)
-    (hclean : ∀ s, s ∈ stmtsOf cfg.blocks → NoDegS s) (k : Nat) :
-    ∀ δ, ReachD (programOf cfg) cfg.params cfg.isFunction δ →
-      ∀ s, s ∈ stmtsOf (degLoop k (degInit cfg) cfg.blocks).1 → SoundSD δ s := by
+/-- the invariant holds of the environment propagation starts from: the parameters, and the variables that are constant by
+    construction (`reachD_const`) -/
+theorem degInit_inv (cfg : Cfg) (wf : WfD (programOf cfg) cfg.params)
+    (hclean : ∀ s, s ∈ stmtsOf cfg.blocks → NoDegS s) :
+    GInvD (programOf cfg) cfg.params cfg.isFunction (degInit cfg) (fun t => t ∈ stmtsOf cfg.blocks) (fun _ => False) := by
   obtain ⟨i1, i2, i3, i4⟩ := initFold cfg.isFunction cfg.params { ranges := [], types := [], assigned := [] }
-  have hinit : GInvD (programOf cfg) cfg.params cfg.isFunction (degInit cfg) (fun t => t ∈ stmtsOf cfg.blocks) (fun _ => False) := by
-    rw [degInit_eq]
-    refine ⟨fun s hs => List.mem_map.mpr ⟨s, hs, rfl⟩, ?_, fun _ h => h.elim, fun _ h => h.elim, i3, ?_,
-      fun δ _ s hs => noDegS_sound δ s (hclean s hs)⟩
-    · intro δ hr v r hv
-      rcases i1 v r hv with h1 | ⟨h1, h2⟩
+  obtain ⟨j1, j2, j3⟩ := seedFold (constVars cfg)
+    (cfg.params.foldl (paramStep cfg.isFunction) { ranges := [], types := [], assigned := [] })
+  rw [degInit_eq]
+  refine ⟨fun s hs => List.mem_map.mpr ⟨s, hs, rfl⟩, ?_, fun _ h => h.elim, fun _ h => h.elim, fun v hv => j2 v (i3 v hv), ?_,
+    fun δ _ s hs => noDegS_sound δ s (hclean s hs)⟩
+  · intro δ hr v r hv
+    rcases j1 v r hv with hv' | ⟨h1, h2⟩
+    · rcases i1 v r hv' with h1 | ⟨h1, h2⟩
       · simp [DegEnv.degree] at h1
       · subst h2
         have := reachD_param _ _ _ wf.params δ hr v h1
         constructor
         · cases hf : cfg.isFunction <;> simp [hf] at this ⊢ <;> omega
         · cases cfg.isFunction <;> simp
-    · intro v hv
-      rcases i4 v hv with h1 | h1
-      · simp [DegEnv.isLocal] at h1
-      · exact Or.inr h1
+    · subst h2
+      obtain ⟨hfn, C, hcl, hC⟩ := mem_constVars cfg v h1
+      have := (reachD_const cfg C hfn wf.params hcl δ hr).1 v hC
+      exact ⟨by omega, by omega⟩
+  · intro v hv
+    rw [j3] at hv
+    rcases i4 v hv with h1 | h1
+    · simp [DegEnv.isLocal] at h1
+    · exact Or.inr h1
+
+/-- **Path-level soundness of degree propagation, for every budget of passes.** -/
+theorem degree_path_sound (cfg : Cfg) (wf : WfD (programOf cfg) cfg.params)
+    (hclean : ∀ s, s ∈ stmtsOf cfg.blocks → NoDegS s) (k : Nat) :
+    ∀ δ, ReachD (programOf cfg) cfg.params cfg.isFunction δ →
+      ∀ s, s ∈ stmtsOf (degLoop k (degInit cfg) cfg.blocks).1 → SoundSD δ s := by
+  have hinit := degInit_inv cfg wf hclean
   obtain ⟨env', M', Done', g1, g2⟩ := loop_invD _ _ _ wf k (degInit cfg) cfg.blocks _ _ hinit (fun _ h => h) rfl
   exact fun δ hr s hs => g1.sound δ hr s (g2 s hs)
 
